@@ -247,6 +247,15 @@ GOALS = {
                                   [{"a": "DelTopic", "s": "s2", "t": "g1", "hard": True, "chan": False},
                                    {"a": "Sub", "s": "s1", "t": "g1", "mode": ["-"], "chan": False, "bg": False},
                                    {"a": "Get", "s": "s1", "t": "g1", "what": "desc sub", "since": 0, "before": 0, "limit": 0, "chan": False}]),
+    # a transferee who has not accepted is NOT the owner, also after the topic was reloaded: granting ownership to a third user,
+    # changing the description and deleting the topic stay refused (C06/C07: only the owner grants ownership)
+    "pending_transfer_reload_grant": ('st.topics["g1"].exists /\\ st.subs["g1"]["u2"].st = "live" /\\ st.topics["g1"].owner = "u1" /\\ st.cache["g1"].loaded '
+                                      '/\\ "O" \\in M(st.subs["g1"]["u2"].given) /\\ "O" \\notin M(st.subs["g1"]["u2"].want) /\\ "A" \\in Eff(st.subs["g1"]["u2"]) '
+                                      '/\\ "g1" \\in M(st.sess["s2"].subs) /\\ st.subs["g1"]["u3"].st = "none"',
+                                      [{"a": "Reload", "t": "g1"},
+                                       {"a": "SetOther", "s": "s2", "t": "g1", "u": "u3", "mode": ["J", "R", "A", "S", "O"], "chan": False},
+                                       {"a": "Get", "s": "s2", "t": "g1", "what": "desc sub", "since": 0, "before": 0, "limit": 0, "chan": False},
+                                       {"a": "SetOther", "s": "s2", "t": "g1", "u": "u1", "mode": ["J", "R"], "chan": False}]),
     "banned_and_unsubscribed": ('st.topics["g1"].exists /\\ st.subs["g1"]["u2"].st = "del" /\\ "J" \\notin M(st.subs["g1"]["u2"].given)',
                                 [{"a": "Sub", "s": "s2", "t": "g1", "mode": ["-"], "chan": False, "bg": False},
                                  {"a": "Pub", "s": "s2", "t": "g1", "c": "c1", "noecho": False, "chan": False}]),
@@ -325,6 +334,15 @@ P2P_GOALS = {
                              {"a": "Unload", "t": "p12"},
                              {"a": "SetSelf", "s": "s1", "t": "p12", "mode": ["J", "R", "W"], "chan": False},
                              {"a": "Sub", "s": "s1", "t": "p12", "mode": ["-"], "chan": False, "bg": False}]),
+    # one participant revokes the other's write permission (the two grants now differ); the refusal must survive a reload
+    # (initTopicP2P reads each participant's grant from that participant's own row)
+    "p2p_peer_write_revoked": ('st.topics["p12"].exists /\\ st.topics["p12"].seq > 0 /\\ "p12" \\in M(st.sess["s1"].subs) /\\ "p12" \\in M(st.sess["s2"].subs)',
+                               [{"a": "SetOther", "s": "s1", "t": "p12", "u": "u2", "mode": ["J", "R", "P", "A"], "chan": False},
+                                {"a": "Pub", "s": "s2", "t": "p12", "c": "c1", "noecho": False, "chan": False},
+                                {"a": "Reload", "t": "p12"},
+                                {"a": "Pub", "s": "s2", "t": "p12", "c": "c2", "noecho": False, "chan": False},
+                                {"a": "Pub", "s": "s1", "t": "p12", "c": "c1", "noecho": False, "chan": False},
+                                {"a": "Get", "s": "s2", "t": "p12", "what": "desc sub", "since": 0, "before": 0, "limit": 0, "chan": False}]),
     "p2p_both_attached_with_history": ('st.topics["p12"].exists /\\ st.topics["p12"].seq > 1 /\\ Len(st.cache["p12"].att) >= 2',
                                        [{"a": "Reload", "t": "p12"},
                                         {"a": "Pub", "s": "s1", "t": "p12", "c": "c1", "noecho": True, "chan": False},
@@ -334,6 +352,14 @@ P2P_GOALS = {
 }
 # goals on read/received marks (used by the properties whose request kinds include notes)
 MARK_GOALS = {
+    # a read mark sent above the received mark (no {note recv} before it): what {get desc} answers must be the same from the live
+    # topic and after a reload (the live topic raises its cached received mark, the store keeps the old one)
+    "read_without_recv": ('st.topics["g1"].exists /\\ st.cache["g1"].loaded /\\ "g1" \\in M(st.sess["s2"].subs) /\\ st.topics["g1"].seq >= 2 '
+                          '/\\ st.subs["g1"]["u2"].st = "live" /\\ "R" \\in Eff(st.subs["g1"]["u2"]) /\\ st.subs["g1"]["u2"].read = 0 /\\ st.subs["g1"]["u2"].recv = 0',
+                          [{"a": "Note", "s": "s2", "t": "g1", "what": "read", "seq": 2, "chan": False},
+                           {"a": "Get", "s": "s2", "t": "g1", "what": "desc", "since": 0, "before": 0, "limit": 0, "chan": False},
+                           {"a": "Reload", "t": "g1"},
+                           {"a": "Get", "s": "s2", "t": "g1", "what": "desc", "since": 0, "before": 0, "limit": 0, "chan": False}]),
     "recv_ahead_of_read": ('st.topics["g1"].exists /\\ st.cache["g1"].loaded /\\ "g1" \\in M(st.sess["s2"].subs) '
                            '/\\ st.subs["g1"]["u2"].st = "live" /\\ st.subs["g1"]["u2"].read = 1 /\\ st.subs["g1"]["u2"].recv = 3',
                            [{"a": "Note", "s": "s2", "t": "g1", "what": "recv", "seq": 2, "chan": False},
